@@ -25,16 +25,21 @@ Definition pb (n : Uint63.int) (ws : list Uint63.int) : bytes := pk (w2n n) ws.
 Fixpoint pairs (b : bytes) : list N :=
   match b with x :: y :: r => (x * 256 + y) :: pairs r | _ => [] end.
 
+(* packed byte string / key share entry (constructors, so that the integer literals are read as primitive ints) *)
+Inductive pbytes := PB (n : Uint63.int) (ws : list Uint63.int).
+Definition bytes_of (p : pbytes) : bytes := match p with PB n ws => pb n ws end.
+Inductive kshare := KS (group : Uint63.int) (n : Uint63.int) (ws : list Uint63.int).
+
 (* an extension object: rendered by extcoq.ExtTerm, or compactly *)
 Inductive cext :=
 | XE (e : ext)
 | XGen (id : Uint63.int) (n : Uint63.int) (ws : list Uint63.int)            (* opaque: emits id || len || these bytes *)
-| XKS (shares : list (Uint63.int * (Uint63.int * list Uint63.int))).       (* KeyShareExtension{(group, data)} *)
+| XKS (shares : list kshare).                                              (* KeyShareExtension{(group, data)} *)
 Definition ext_of (c : cext) : ext :=
   match c with
   | XE e => e
   | XGen id n ws => EGeneric (w2n id) (pb n ws)
-  | XKS l => EKeyShare (map (fun x => (w2n (fst x), pb (fst (snd x)) (snd (snd x)))) l)
+  | XKS l => EKeyShare (map (fun x => match x with KS g n ws => (w2n g, pb n ws) end) l)
   end.
 
 Inductive cop :=
@@ -70,7 +75,7 @@ Inductive case :=
        (exts : list cext)                       (* HandshakeState.Hello / uconn.Extensions after the first BuildHandshakeState *)
        (ops : list cop)                         (* public calls made after it, in order *)
        (srv : csrv)                             (* then Handshake against this server *)
-       (hellos : list (Uint63.int * list Uint63.int))   (* ClientHello messages seen on the wire *)
+       (hellos : list pbytes)                   (* ClientHello messages seen on the wire *)
        (raw_is_last : bool).                    (* Hello.Raw after Handshake == the last of them *)
 
 Definition bbs512 : N -> N := fun _ => 512.
@@ -84,7 +89,7 @@ Definition check (c : case) : bool :=
       let s := run bbs512 0%Z s0 (OBuild :: map op_of ops) in
       match handshake bbs512 0%Z (srv_of srv) s with
       | (s', Ok _) =>
-          list_eqb bytes_eqb (u_sent s') (map (fun x => pb (fst x) (snd x)) hellos)
+          list_eqb bytes_eqb (u_sent s') (map bytes_of hellos)
           && raw_is_last && bytes_eqb (u_raw s') (last (u_sent s') [])
       | _ => false
       end
